@@ -768,6 +768,9 @@ func c12Gen(tier string, seed uint64, out *bufio.Writer) {
 	// 4c. negated atoms (c12_negatoms.go): every operation atom under `not` in every position, over
 	//     rows with NULL fields and empty sets; own random stream
 	c12GenNegAtoms(tier, seed, out)
+	// 4e. large skeletons (c12_large.go): wide chains, wide nested trees, deep parentheses / nots,
+	//     right- and left-nested trees of hundreds of atoms
+	c12GenLarge(tier, seed, out)
 	// 4d. a sample of k / r cases once more under ast.EnableQueryDebug = true (c12_config.go)
 	c12GenConfig(tier, seed, out)
 	// 5. re-spellings of mixed queries
